@@ -198,7 +198,7 @@ class EVQECircuitLayer:
         """
         circuit = QuantumCircuit(self.n_qubits, name=f"layer_{layer_id}")
 
-        layer_prefix = f"layer{layer_id}_"
+        layer_prefix = f"layer{layer_id:06d}_"
         for gate in self.gates:
             gate.apply_gate(circuit=circuit, parameter_name_prefix=layer_prefix)
 
